@@ -19,6 +19,7 @@ import (
 	"encoding/json"
 	"fmt"
 	"github.com/echovault/sugardb/internal"
+	"github.com/echovault/sugardb/internal/verif"
 	"time"
 )
 
@@ -92,6 +93,7 @@ func (server *SugarDB) raftEnqueueDeleteKey(ctx context.Context, key string) err
 	}
 
 	server.raft.Apply(b, 500*time.Millisecond)
+	verif.Point("raft.enqueue.delete", server.config.ServerID, key)
 	return nil
 }
 
